@@ -1,4 +1,30 @@
-import LZ4V.Spec.Frame
-/-! # C19 — property theorems (in progress) -/
+import LZ4V.Properties.C03
+/-!
+# C19 — LZ4F contexts are reusable after any history (compression-context part)
+-/
 namespace LZ4V.C19
+open LZ4V.Model.FrameC
+
+/-- **begin after any history**: `LZ4F_compressBegin` yields the same context whatever state the context was in — an open
+    frame, an abandoned one with data buffered, a finished one, any block size / mode left over -/
+theorem begin_after_any_history (c1 c2 : Ctx) (bs : Nat) (af : Bool) : step c1 (.begin bs af) = step c2 (.begin bs af) := rfl
+
+/-- so a whole session after `begin` is independent of the history that preceded it -/
+theorem session_independent_of_history (c1 c2 : Ctx) (bs : Nat) (af : Bool) (ops : List Op) :
+    run c1 (.begin bs af :: ops) = run c2 (.begin bs af :: ops) := by
+  simp only [run, begin_after_any_history c1 c2]
+
+/-- exactly one frame per `begin .. end`: after `LZ4F_compressEnd` the context is closed (stage 0) with nothing buffered, and a
+    following update without `begin` is refused -/
+theorem update_after_end_refused (bs : Nat) (af : Bool) (hbs : 0 < bs) (ops : List Op) (c' : Ctx) (blocks : List (List UInt8))
+    (hops : ∀ op ∈ ops, ∀ b a, op ≠ .begin b a) (hr : run (LZ4V.C03.afterBegin bs af) (ops ++ [.finish]) = .ok (c', blocks))
+    (src : List UInt8) (u : Bool) : step c' (.update src u) = .error .notInitialized := by
+  obtain ⟨_, _, h3⟩ := LZ4V.C03.finished_frame_holds_input bs af hbs ops c' blocks hops hr
+  simp only [step]
+  rw [if_pos (by rw [h3]; decide)]
+
+/-- non-vacuity: a context abandoned mid-frame with 1 byte buffered, then begin + a complete frame -/
+example : (run { stage := 1, blockSize := 4, buffered := [9] } [.begin 2 false, .update [1, 2, 3] false, .finish]).toOption.map (·.2) =
+    some [[1, 2], [3]] := by decide
+
 end LZ4V.C19
